@@ -61,6 +61,8 @@ def death_signature(rc, stderr_text):
     kind = "exit-%s" % rc
     if rc == EXIT_CPU or "VERIF-CPU-BUDGET-EXCEEDED" in stderr_text:
         kind = "cpu-budget"
+    if rc == 95 or "VERIF-BLOCKED" in stderr_text:
+        kind = "blocked"
     m = re.search(r"fatal error: ([^\n]+)", stderr_text)
     if m:
         kind = "fatal:" + m.group(1).strip()
